@@ -47,6 +47,11 @@ CHECKS = {
             "Layer (a) enumerates delivery patterns of reference-built fragment frames put on the air by scripted injector radios and received through the real node's chip, update() and queue; layer (b) runs 2-3 real concurrent senders under seeded packet/ACK loss. Oracle: every dequeued frame is one complete sent message, at most once.",
             "Trusts the reference fragmenter (TMRh20 numbering) and chip model M4; claims nothing about which messages get through.",
             "5 C06"),
+    "C07": ("exploration",
+            "deterministic simulation: post-call invariant on every node's chip model after every public call, over seeded network/mesh API histories with absent/halted nodes, packet/ACK loss, NETWORK_ACK drops, blackouts, MCU jitter and stalls",
+            "Every node of a run is a unit under test: a hook in the harness's node loop evaluates the listening invariant (PWR_UP, PRIM_RX, CE, RX session, EN_RXADDR, six reference pipe addresses, EN_AA=0x3E, DPL) on the chip model at the return of each public call, whatever it returned or raised; at the end injector frames confirm that the parent-facing pipe, a child pipe and the level address really receive.",
+            "Trusts the TMRh20-derived reference address translation and the chip model's notion of an RX session.",
+            "5 C07"),
     "C13": ("fault_enumeration",
             "deterministic simulation of routes of 1..8 hops (all nodes as seeded-scheduled tasks) with every single-failure position enumerated: forward hop k fails, link ACKs of hop k lost, NETWORK_ACK relay j fails",
             "For each route length the single-failure positions are enumerated as explicit air fault rules (by transmitting node and network frame type); write()'s return value and duration at the origin are compared with the chip model's record of first-hop acceptance and with the sniffer's record of NETWORK_ACK frames stored by the origin's radio; NETWORK_ACK originations at the delivering router are counted per forwarded copy.",
